@@ -17,7 +17,7 @@ inductive Item where
   | line (linewidth bbox : Str)                           -- LTLine
   | rect (linewidth bbox : Str)                           -- LTRect
   | curve (linewidth bbox pts : Str)                      -- LTCurve
-  | image (width height : Str)                            -- LTImage
+  | image (width height : Str) (src : Option Str)         -- LTImage; src = name returned by imagewriter.export_image
   | figure (name bbox : Str) (kids : List Item)           -- LTFigure
   | textline (bbox : Str) (kids : List Item)              -- LTTextLine
   | textbox (index bbox : Str) (vertical : Bool) (kids : List Item)   -- LTTextBox(Vertical)
@@ -43,17 +43,17 @@ def textWrites : Item → List Str
   | .line _ _ => []
   | .rect _ _ => []
   | .curve _ _ _ => []
-  | .image _ _ => []
+  | .image _ _ _ => []
   | .figure _ _ kids => textWritesL kids
   | .textline _ kids => textWritesL kids
-  | .textbox _ _ _ kids => textWritesL kids ++ [['\n']]
+  | .textbox _ _ _ kids => textWritesL kids ++ [t_text_box_end]
 def textWritesL : List Item → List Str
   | [] => []
   | i :: is => textWrites i ++ textWritesL is
 end
 
 /-- one `receive_layout(ltpage)` call (showpageno is False on every path of high_level) -/
-def textPageWrites (p : Page) : List Str := textWritesL p.kids ++ [['\x0c']]
+def textPageWrites (p : Page) : List Str := textWritesL p.kids ++ [t_text_page_end]
 
 def textDocWrites (ps : List Page) : List Str := ps.flatMap textPageWrites
 
@@ -66,7 +66,8 @@ def xmlWrites (strip : Bool) : Item → List Str
   | .line lw b => [t_render_LTLine_0 lw b]
   | .rect lw b => [t_render_LTRect_0 lw b]
   | .curve lw b pts => [t_render_LTCurve_0 lw b pts]
-  | .image w h => [t_render_LTImage_1 w h]
+  | .image w h none => [t_render_LTImage_1 w h]
+  | .image w h (some name) => [t_render_LTImage_0 strip name w h]
   | .figure n b kids => [t_render_LTFigure_0 strip n b] ++ xmlWritesL strip kids ++ [t_render_LTFigure_1]
   | .textline b kids => [t_render_LTTextLine_0 b] ++ xmlWritesL strip kids ++ [t_render_LTTextLine_1]
   | .textbox i b v kids =>
